@@ -24,6 +24,8 @@ ASSUMPTIONS = [
     "matrix entries stay far from the int32 range (largest entry 100000); sums that overflow int32 are not explored",
     "an empty sequence is an unspecified input (EITHER): a clean exception or a result that passes every check",
     "positive gap penalties and max_number < 1 are documented as invalid and must raise",
+    "every returned trace is validated and rescored with the model; biotite's own align.score() is additionally "
+    "evaluated for the first 25 distinct traces per (pair, matrix, gap, mode)",
     "uint32/uint64 codes are produced by a GeneralSequence subclass whose public `code` has the wider dtype "
     "(an alphabet that needs such codes would need a > 16 GB matrix)",
     "the 'complete set of optimal alignments' comparison (max_number=1000) is stronger than the statement and is "
@@ -35,6 +37,7 @@ EXHAUSTIVE = True
 SHARD_TIMEOUT = {"quick": 600, "thorough": 2400}
 
 MAX_NUMBERS = (1, 2, 1000)
+ALIGN_SCORE_CAP = 25  # align.score() is evaluated for the first 25 distinct traces of a (pair, matrix, gap, mode)
 FAMS = ["std", "ident", "negident", "allneg", "zero", "asym", "large"]
 RECT_FAMS = ["rect", "rectneg"]
 DTYPES = ["uint8", "uint16", "uint32", "uint64"]
@@ -219,8 +222,10 @@ def check_call(ctx, env, l1, l2, gap, mode, max_number, key=None, either=False):
             prob = A.trace_problem(t, n, m, end_to_end=(mode != "local"))
             if prob is None:
                 ms = A.score_cols(t, c1, c2, env.mat, gap, terminal_penalty=(mode != "semi"))
-                if either and (n == 0 or m == 0):
-                    bs = ms  # align.score(terminal_penalty=False) is undefined without symbols
+                if (either and (n == 0 or m == 0)) or len(key.rescore) >= ALIGN_SCORE_CAP:
+                    # align.score(terminal_penalty=False) is undefined without symbols; beyond the cap
+                    # only the model rescoring is applied (align.score() costs more than the aligner)
+                    bs = ms
                 else:
                     try:
                         bs = int(balign.score(a, env.matrix, gap_penalty=gap, terminal_penalty=(mode != "semi")))
